@@ -11,6 +11,9 @@ CHECKS = {
  'C16': ('model_checking', 'bit-precise (z3 QF_FP) symbolic execution of clang LLVM IR of every converting constructor/assignment against fpext/fptrunc per component',
          'For every class and all six ordered pairs of numeric types the converting constructor and the converting assignment (into an arbitrary symbolic pre-state) are executed symbolically from clang IR; every result component is shown to be exactly the plain cast of the same source component for all bit patterns; widen-then-narrow is the identity; directions equal the re-normalised cast.',
          'clang 14 IR at -O1; z3 FP theory; one NaN per format (payloads not distinguished)', '3 C16'),
+ 'C18': ('model_checking', 'symbolic execution of clang LLVM IR of each definitional relation; z3 nlsat decides identity with the textbook formula over the reals and a K-ulp bound under the standard rounding model (monolithic, or solver-checked local error lemmas composed bottom-up for large expressions)',
+         'Each of about 40 definitional entry points (existence pinned by compilation) is executed symbolically in float, double and long double and compared with an independently written textbook formula: exactly over the reals (every constant and argument position) and within K ulps for all positive inputs and all admissible rounding errors.',
+         'standard model of rounding (no intermediate overflow/underflow); clang 14 IR at -O1 -ffp-contract=off; composition of local lemmas is trusted; formulas table written from textbooks', '3 C18'),
 }
 NA = {}
 def main():
